@@ -215,7 +215,11 @@ def polyroots(ctx, coeffs, maxsteps=50, cleanup=True, extraprec=10,
             return rank
         imrank = ranks([abs(ctx._im(r)) for r in roots])
         rerank = ranks([ctx._re(r) for r in roots])
-        order = sorted(range(deg), key=lambda i: (imrank[i], rerank[i],
+        # (a root counts as real when its imaginary part is exactly zero,
+        # i.e. was removed above; a conjugate pair with a tiny imaginary part
+        # that was kept must not be merged into the real roots)
+        order = sorted(range(deg), key=lambda i: (ctx._im(roots[i]) != 0,
+            imrank[i], rerank[i],
             abs(ctx._im(roots[i])), ctx._re(roots[i])))
         roots = [roots[i] for i in order]
     if error:
